@@ -50,6 +50,7 @@ type exCall struct {
 }
 
 type exRun struct {
+	outer       []atomic.Int64 // per key: 1 + id of the call whose own wrapper (monitor) is currently around the running work; 0 = none
 	rlShared    bigbuff.ExclusiveOption
 	rejected    atomic.Int64 // invalid (panicking, recovered) calls made in between
 	c           *core.Ctx
@@ -103,6 +104,16 @@ func (r *exRun) leaveInner(key int) {
 func (r *exRun) newExec(call *exCall) *exExec {
 	if call.runs.Add(1) > 1 {
 		r.problem("answer", "function-ran-twice", "the function supplied by call %d (%s) was executed more than once", call.id, call.style)
+	}
+	if call.key < len(r.outer) {
+		switch o := r.outer[call.key].Load(); {
+		case call.style == "Options" && o == 0:
+			r.problem("answer", "wrapper-dropped", "the work supplied by call %d (CallWithOptions, with a wrapper) was executed without that wrapper around it", call.id)
+		case call.style == "Options" && o != int64(call.id)+1:
+			r.problem("answer", "foreign-wrapper", "the work supplied by call %d was executed inside the wrapper supplied by call %d: a function nobody supplied", call.id, o-1)
+		case call.style != "Options" && o != 0:
+			r.problem("answer", "foreign-wrapper", "the plain function supplied by call %d (%s) was executed inside the wrapper supplied by call %d: a function nobody supplied", call.id, call.style, o-1)
+		}
 	}
 	r.mu.Lock()
 	e := &exExec{id: len(r.execs), key: call.key, supplier: call.id}
@@ -183,6 +194,11 @@ func (r *exRun) monitor(call *exCall) bigbuff.ExclusiveOption {
 						break
 					}
 				}
+			}
+			// the options of a call belong together: the wrappers a call supplied go around the work that call supplied
+			if call.key < len(r.outer) {
+				r.outer[call.key].Store(int64(call.id) + 1)
+				defer r.outer[call.key].Store(0)
 			}
 			inner(resolve)
 		}
@@ -290,7 +306,7 @@ var exStyles = []string{"Call", "CallAfter", "CallAsync", "CallAfterAsync", "Sta
 var exWorks = []string{"value", "early", "early", "never", "twice", "ratelimit", "async", "async"}
 
 func runExclusive(c *core.Ctx, keys, callers, perCaller int) *exRun {
-	r := &exRun{c: c, e: new(bigbuff.Exclusive), keys: keys, active: make([]atomic.Int32, keys), inner: make([]atomic.Int32, keys), workStart: make([]atomic.Int64, keys), rlCtx: context.Background()}
+	r := &exRun{c: c, e: new(bigbuff.Exclusive), keys: keys, active: make([]atomic.Int32, keys), inner: make([]atomic.Int32, keys), outer: make([]atomic.Int64, keys), workStart: make([]atomic.Int64, keys), rlCtx: context.Background()}
 	if c.Rng.IntN(2) == 0 {
 		// the rate limiter's context is cancelled somewhere in the middle of the run (other call styles go on)
 		ctx, cancel := context.WithCancel(context.Background())
